@@ -158,6 +158,24 @@ theorem sepEq_extend {x y : Bytes} (h : SepEq x y) (gap l : Bytes) :
   · unfold extendBuf; rw [ex]; simp only [Bool.false_eq_true, ↓reduceIte, List.append_assoc]
   · unfold extendBuf; rw [ey]; simp only [Bool.false_eq_true, ↓reduceIte, List.append_assoc]
 
+/-! ### unfolding the line loop (the end-of-file marker is tested first) -/
+
+theorem feedLines_cons_mark (recog : Bytes → Bool) (k : Kw) (buf gap : Bytes) (rest : List Bytes) :
+    feedLines recog k buf gap (eofMark :: rest) =
+      if buf.isEmpty then feedLines recog k buf gap rest else none := by
+  simp only [feedLines, ↓reduceIte]
+
+theorem feedLines_cons (recog : Bytes → Bool) (k : Kw) (buf gap line : Bytes) (rest : List Bytes)
+    (h : line ≠ eofMark) :
+    feedLines recog k buf gap (line :: rest) =
+      match feedLine recog k buf gap line with
+      | .cont k' buf' gap' => feedLines recog k' buf' gap' rest
+      | .done k' unget => some (k', if unget then line :: rest else rest)
+      | .err => none := by
+  cases hs : feedLine recog k buf gap line <;> simp only [feedLines, h, ↓reduceIte, hs]
+
+theorem nil_ne_eofMark : ([] : Bytes) ≠ eofMark := by decide
+
 /-- the rest of the keyword is assembled identically from two `SepEq` record buffers. -/
 theorem feedLines_sepEq (recog : Bytes → Bool) : ∀ (lines : List Bytes) (k : Kw) (x y gap : Bytes),
     SepEq x y → feedLines recog k x gap lines = feedLines recog k y gap lines := by
@@ -169,7 +187,11 @@ theorem feedLines_sepEq (recog : Bytes → Bool) : ∀ (lines : List Bytes) (k :
     obtain ⟨hx, hy⟩ := sepEq_ne_nil h
     have ex : x.isEmpty = false := by cases x <;> simp_all
     have ey : y.isEmpty = false := by cases y <;> simp_all
-    simp only [feedLines, feedLine]
+    by_cases hm : line = eofMark
+    · subst hm
+      simp only [feedLines_cons_mark, ex, ey, Bool.false_eq_true, ↓reduceIte]
+    rw [feedLines_cons recog k x gap line rest hm, feedLines_cons recog k y gap line rest hm]
+    simp only [feedLine]
     by_cases hl : line.isEmpty = true
     · simp only [hl, ↓reduceIte, ex, ey, Bool.false_eq_true]
       exact ih k x y _ h
@@ -192,7 +214,12 @@ theorem feedLines_gap_empty (recog : Bytes → Bool) : ∀ (lines : List Bytes) 
   | nil => intro k gap gap'; rfl
   | cons line rest ih =>
     intro k gap gap'
-    simp only [feedLines, feedLine, extendBuf, List.isEmpty_nil, ↓reduceIte]
+    by_cases hm : line = eofMark
+    · subst hm
+      simp only [feedLines_cons_mark, List.isEmpty_nil, ↓reduceIte]
+      exact ih k gap gap'
+    rw [feedLines_cons recog k [] gap line rest hm, feedLines_cons recog k [] gap' line rest hm]
+    simp only [feedLine, extendBuf, List.isEmpty_nil, ↓reduceIte]
 
 theorem feedLines_gap (recog : Bytes → Bool) : ∀ (lines : List Bytes) (k : Kw) (buf gap gap' : Bytes),
     buf ≠ [] → OutsideP buf → (∀ c ∈ gap, isSep c = true) → (∀ c ∈ gap', isSep c = true) →
@@ -203,7 +230,11 @@ theorem feedLines_gap (recog : Bytes → Bool) : ∀ (lines : List Bytes) (k : K
   | cons line rest ih =>
     intro k buf gap gap' hne hout hg hg'
     have hbe : buf.isEmpty = false := by cases buf <;> simp_all
-    simp only [feedLines, feedLine]
+    by_cases hm : line = eofMark
+    · subst hm
+      simp only [feedLines_cons_mark, hbe, Bool.false_eq_true, ↓reduceIte]
+    rw [feedLines_cons recog k buf gap line rest hm, feedLines_cons recog k buf gap' line rest hm]
+    simp only [feedLine]
     by_cases hl : line.isEmpty = true
     · simp only [hl, ↓reduceIte, hbe, Bool.false_eq_true]
       exact ih k buf _ _ hne hout
@@ -235,7 +266,8 @@ lines. -/
 theorem feedLines_empty_line (recog : Bytes → Bool) (k : Kw) (buf gap : Bytes) (lines : List Bytes)
     (hgap : ∀ c ∈ gap, isSep c = true) (hout : buf = [] ∨ OutsideP buf) :
     feedLines recog k buf gap ([] :: lines) = feedLines recog k buf gap lines := by
-  simp only [feedLines, feedLine, List.isEmpty_nil, ↓reduceIte]
+  rw [feedLines_cons recog k buf gap [] lines nil_ne_eofMark]
+  simp only [feedLine, List.isEmpty_nil, ↓reduceIte]
   by_cases hb : buf = []
   · subst hb
     simp only [List.isEmpty_nil, ↓reduceIte]
@@ -312,15 +344,24 @@ lines, provided that: the break is outside quotes (`ha`: for `find_terminator`, 
 honours `'` and `"`; `hout`: for the tokeniser, which honours `'` and the quoted part of `n*'…'`), the first part holds no
 terminating slash (`ha`), and neither part is taken for the start of the next keyword
 while the keyword could already be complete (`hra`, `hrb` — the property's "continuation
-does not begin with a keyword-like word"). -/
+does not begin with a keyword-like word"); `hma`, `hmb`: the parts are lines of text, not the
+end-of-file marker of the model (true of every cleaned line: it holds no '\n'). -/
 theorem assemble_linebreak (recog : Bytes → Bool) (k : Kw) (hraw : k.raw = false)
     (buf gap a s b : Bytes) (rest : List Bytes)
     (hane : a ≠ []) (hbne : b ≠ []) (hs : s ≠ []) (hsep : ∀ c ∈ s, isSep c = true)
     (ha : BalancedNoSlash a)
     (hout : OutsideP (extendBuf buf gap a))
     (hra : (k.canComplete && recog (makeDeckName a)) = false)
-    (hrb : (k.canComplete && recog (makeDeckName b)) = false) :
+    (hrb : (k.canComplete && recog (makeDeckName b)) = false)
+    (hma : a ≠ eofMark) (hmb : b ≠ eofMark) :
     feedLines recog k buf gap ((a ++ s ++ b) :: rest) = feedLines recog k buf gap (a :: b :: rest) := by
+  have hmJ : a ++ s ++ b ≠ eofMark := by
+    intro e
+    have := congrArg List.length e
+    have h1 : 0 < a.length := List.length_pos_iff.mpr hane
+    have h2 : 0 < b.length := List.length_pos_iff.mpr hbne
+    simp only [List.length_append, eofMark, List.length_cons, List.length_nil] at this
+    omega
   have hJne : (a ++ s ++ b).isEmpty = false := by cases a <;> simp_all
   have hae : a.isEmpty = false := by cases a <;> simp_all
   have hbe : b.isEmpty = false := by cases b <;> simp_all
@@ -391,7 +432,10 @@ theorem assemble_linebreak (recog : Bytes → Bool) (k : Kw) (hraw : k.raw = fal
   have hrel : SepEq (extendBuf buf gap a ++ s ++ delAfterFirstSlash b)
       (extendBuf buf gap a ++ [10] ++ delAfterFirstSlash b) :=
     ⟨extendBuf buf gap a, s, [10], delAfterFirstSlash b, rfl, rfl, hE_ne, hs, by simp, hsep, by decide, hout⟩
-  simp only [feedLines, stepA, stepB, stepJ]
+  rw [feedLines_cons recog k buf gap _ rest hmJ, feedLines_cons recog k buf gap a _ hma]
+  simp only [stepA, stepJ]
+  rw [feedLines_cons recog k _ [] b rest hmb]
+  simp only [stepB]
   rcases afterExtend_sepEq k _ _ hrel with he | ⟨h3, h4⟩
   · rw [he]
     cases hstep : afterExtend k (extendBuf buf gap a ++ [10] ++ delAfterFirstSlash b) with
